@@ -3,6 +3,7 @@ import UsualProofs.C02.Escapes
 import UsualProofs.C02.Relaxed
 import UsualProofs.C02.RfcFinal
 import UsualProofs.C02.Old
+import UsualProofs.C02.Grammar
 /-!
 # C02 — JSON parser: total, strict and value-correct on every input
 
@@ -214,6 +215,18 @@ example :
     · simp [ht] at h
   · simp [okV, okL, okM]
     decide
+
+/-- **The state table is the grammar's automaton.**  `STATE_STEPS` as extracted from `json.c` on
+this run equals, cell by cell (and 0 outside), the transition function `specStep` written from the
+RFC 8259 grammar: a value may start exactly where one is expected, a name exactly where a member
+may start, `,` only after a complete element or member, `:` only after a name, a closer only
+directly after its opener or after a complete element or member.  Every edit of the table breaks
+this theorem (the finite facts the strictness theorems use are instances of it). -/
+theorem state_table_is_grammar (s t : Nat) : STEP s t = specStep s t := STEP_eq_specStep s t
+
+-- e.g. no closer after a comma, nothing after the top-level value, a name only in key position
+example : specStep S_LIST_VALUE T_CLOSE_LIST = 0 ∧ specStep S_DONE T_OTHER = 0 ∧
+    specStep S_DICT_KEY T_STRING = S_DICT_COLON ∧ specStep S_DICT_KEY T_OTHER = 0 := by decide
 
 /-- **Defect F3 (unchanged code).**  The unchanged `parse_number` treats `errno == ERANGE` after
 `strtod` as failure; `strtod` sets it on inexact underflow, so the RFC 8259 document `5e-324`
